@@ -199,7 +199,10 @@ func (l *loggingDest) log(p string) {
 	l.paths = append(l.paths, p)
 	l.mu.Unlock()
 }
-func (l *loggingDest) Open(name string) (hackpadfs.File, error) { l.log(name); return l.inner.Open(name) }
+func (l *loggingDest) Open(name string) (hackpadfs.File, error) {
+	l.log(name)
+	return l.inner.Open(name)
+}
 func (l *loggingDest) OpenFile(name string, flag int, perm hackpadfs.FileMode) (hackpadfs.File, error) {
 	l.log(name)
 	return l.inner.OpenFile(name, flag, perm)
